@@ -463,3 +463,62 @@ def do_pairing_search(req):
 
 
 HANDLERS.update({'pairing_case': do_pairing_case, 'pairing_search': do_pairing_search})
+
+
+# ------------------------------------------------------------------------------ C15 refute mode
+def do_callstack_case(req):
+    from pykdebugparser.callstacks_parser import CallstacksParser
+    from pykdebugparser.trace_handlers.perf import PerfEvent
+    from pykdebugparser.trace_handlers.dyld import DyldUuidMapA, DyldLaunchExecutable
+    from spec import callstacks as S
+    ops = [tuple(o) for o in req['ops']]
+    traces = []
+    for op in ops:
+        if op[0] == 'image':
+            traces.append(DyldUuidMapA([_mk_kevent(0x1f050000, 1)], op[2], op[1], 0))
+        elif op[0] == 'launch':
+            traces.append(DyldLaunchExecutable([_mk_kevent(0x1f070000, 1)], 0, [DyldUuidMapA([], u, a, 0) for a, u in op[1]]))
+        elif op[0] == 'sample':
+            traces.append(PerfEvent([_mk_kevent(0x25000000, op[2], 1, ts=op[1]), _mk_kevent(0x25000000, op[2] + 1, 2, ts=op[1] + 5)], [], 1,
+                                    None, [], list(op[3])))
+        else:
+            traces.append(PerfEvent([_mk_kevent(0x25000000, 3, 0)], [], 1))
+    cp = CallstacksParser([], [])
+    try:
+        got = [(c.timestamp, c.tid, [(f.address, f.uuid, f.offset) for f in c.frames]) for c in cp.feed_generator(iter(traces))]
+    except BaseException as ex:  # noqa
+        return {'violates': True, 'what': 'feed_generator raised %s: %s' % (type(ex).__name__, ex)}
+    exp = S.expected([(o[0], o[1], o[2], list(o[3])) if o[0] == 'sample' else ((o[0], [tuple(x) for x in o[1]]) if o[0] == 'launch' else o) for o in ops])
+    exp = [(t, tid, [tuple(f) for f in fr]) for t, tid, fr in exp]
+    return {'violates': got != exp, 'got': got, 'expected': exp,
+            'what': 'callstacks %r, the specification gives %r' % (got, exp) if got != exp else ''}
+
+
+def do_callstack_search(req):
+    import random
+    rnd = random.Random(req.get('seed', 0))
+    budget = req.get('budget', 3000)
+    addrs = [0x1000, 0x2000, 0x2001, 0x3000, 0x5000]
+    tried = 0
+    while tried < budget:
+        ops = []
+        for _ in range(rnd.randint(1, 6)):
+            r = rnd.random()
+            if r < 0.4:
+                ops.append(['image', rnd.choice(addrs), 'u%d' % rnd.randint(1, 9)])
+            elif r < 0.55:
+                ops.append(['launch', [[rnd.choice(addrs), 'u%d' % rnd.randint(1, 9)] for _ in range(rnd.randint(0, 3))]])
+            elif r < 0.95:
+                ops.append(['sample', rnd.randint(1, 99), rnd.randint(1, 9),
+                            [rnd.choice(addrs) + rnd.choice([-1, 0, 1, 0x10]) for _ in range(rnd.randint(0, 3))]])
+            else:
+                ops.append(['other'])
+        tried += 1
+        r = do_callstack_case({'ops': ops})
+        if r['violates']:
+            r['request'] = {'kind': 'callstack_case', 'ops': ops}
+            return {'tried': tried, 'bound': 'random sequences of <= 6 announcements/samples over 5 addresses', 'found': r}
+    return {'tried': tried, 'bound': 'random sequences of <= 6 announcements/samples over 5 addresses', 'found': None}
+
+
+HANDLERS.update({'callstack_case': do_callstack_case, 'callstack_search': do_callstack_search})
